@@ -221,18 +221,42 @@ pub fn table() -> Vec<IpAddr> {
     ]
 }
 
-#[derive(Clone)]
-pub struct ListResolver(pub Vec<SocketAddr>);
+pub struct ListResolver {
+    pub list: Vec<SocketAddr>,
+    /// readiness lives in the value that was polled (as with `tower::limit::ConcurrencyLimit`): a clone
+    /// starts unready, and - in the strict flavour - `call` without a preceding `poll_ready` on the
+    /// same value panics, as such services do
+    ready: bool,
+    strict: bool,
+}
+impl Clone for ListResolver {
+    fn clone(&self) -> Self {
+        ListResolver { list: self.list.clone(), ready: false, strict: self.strict }
+    }
+}
+#[allow(non_snake_case)]
+pub fn ListResolver(list: Vec<SocketAddr>) -> ListResolver {
+    ListResolver { list, ready: false, strict: false }
+}
+pub fn strict_resolver(list: Vec<SocketAddr>) -> ListResolver {
+    ListResolver { list, ready: false, strict: true }
+}
+pub const OUT_OF_CONTRACT: &str = "called although poll_ready had not reported ready on this value (tower::Service contract)";
 
 impl tower::Service<Box<str>> for ListResolver {
     type Response = hyperdriver::client::conn::dns::SocketAddrs;
     type Error = std::io::Error;
     type Future = std::future::Ready<Result<Self::Response, Self::Error>>;
     fn poll_ready(&mut self, _: &mut std::task::Context<'_>) -> std::task::Poll<Result<(), Self::Error>> {
+        self.ready = true;
         std::task::Poll::Ready(Ok(()))
     }
     fn call(&mut self, _host: Box<str>) -> Self::Future {
-        std::future::ready(Ok(self.0.iter().copied().collect()))
+        if self.strict && !self.ready {
+            panic!("resolver {OUT_OF_CONTRACT}");
+        }
+        self.ready = false;
+        std::future::ready(Ok(self.list.iter().copied().collect()))
     }
 }
 
@@ -511,6 +535,10 @@ pub struct PortCase {
     /// `TcpTransport` (the resolver of `SimpleTcpTransport` answers with a bare `IpAddr`).
     #[serde(default)]
     pub scoped: bool,
+    /// the host of the URI is an IP literal (1: `127.0.0.250`, 2: `[::1]`) instead of a name: the
+    /// configured resolver is asked all the same, and its answer - not the literal - is what is tried
+    #[serde(default)]
+    pub literal_host: u8,
 }
 
 /// A link-local IPv6 address of this machine with its interface index (from /proc/net/if_inet6),
@@ -639,7 +667,8 @@ impl Engine for PortEngine {
                 }
             }
             let scheme = if c.scheme % 2 == 0 { "http" } else { "https" };
-            let uri: http::Uri = if c.explicit { format!("{scheme}://port.test:{port}/") } else { format!("{scheme}://port.test/") }.parse().unwrap();
+            let host = ["port.test", "127.0.0.250", "[::1]"][c.literal_host as usize % 3];
+            let uri: http::Uri = if c.explicit { format!("{scheme}://{host}:{port}/") } else { format!("{scheme}://{host}/") }.parse().unwrap();
             let parts = http::Request::get(uri.clone()).body(()).unwrap().into_parts().0;
             let mut cfg = TcpTransportConfig::default();
             cfg.connect_timeout = Some(std::time::Duration::from_secs(2));
@@ -673,6 +702,9 @@ impl Engine for PortEngine {
         if c.simple {
             rep.class("simple-tcp-transport");
         }
+        if c.literal_host % 3 != 0 {
+            rep.class("ip-literal-host-with-custom-resolver");
+        }
         rep.nontrivial = !c.explicit || c.extra % 3 > 0 || c.scoped;
         rep.total_ops = 1;
         rep
@@ -682,7 +714,7 @@ impl Engine for PortEngine {
 pub fn port_strategy() -> impl proptest::strategy::Strategy<Value = PortCase> {
     use proptest::prelude::*;
     (0u8..4, any::<bool>(), prop_oneof![Just(0u16), Just(1u16), Just(80u16), Just(443u16), any::<u16>()], any::<bool>(), 0u8..3, prop_oneof![3 => Just(false), 1 => Just(true)])
-        .prop_map(|(scheme, explicit, answer_port, simple, extra, scoped)| PortCase { scheme, explicit, answer_port, simple: simple && !scoped, extra, scoped })
+        .prop_map(|(scheme, explicit, answer_port, simple, extra, scoped)| PortCase { scheme, explicit, answer_port, simple: simple && !scoped, extra, scoped, literal_host: if scoped { 0 } else { (answer_port % 5).saturating_sub(2) as u8 } })
 }
 
 // ------------------------------------------------------------------------------------------------
